@@ -1,0 +1,146 @@
+//! Verification hooks (feature `verif-hooks`, off by default).
+//!
+//! Observation only: thread-local counters bumped from the transform pipeline,
+//! an end-of-transform probe of the context, and a scanner progress monitor.
+//! Nothing here changes what a transform returns.
+
+use std::cell::Cell;
+use std::io::Cursor;
+use std::sync::atomic::{AtomicU64, Ordering};
+
+use crate::transform::Transformer;
+use crate::{Result, TransformConfig};
+
+/// Process-wide beacon (sum over all threads) so a watchdog thread can see progress.
+pub static ELEM_EVALS_TOTAL: AtomicU64 = AtomicU64::new(0);
+pub static EXPR_EVALS_TOTAL: AtomicU64 = AtomicU64::new(0);
+
+#[derive(Clone, Copy, Debug, Default)]
+pub struct Counters {
+    pub elem_evals: u64,
+    pub retry_passes: u64,
+    pub loop_iters: u64,
+    pub rng_draws: u64,
+    pub expr_evals: u64,
+    pub expr_depth_max: u64,
+    pub depth_max: u64,
+    pub scanner_steps: u64,
+    pub scanner_stalls: u64,
+}
+
+thread_local! {
+    static COUNTERS: Cell<Counters> = const { Cell::new(Counters {
+        elem_evals: 0, retry_passes: 0, loop_iters: 0, rng_draws: 0, expr_evals: 0,
+        expr_depth_max: 0, depth_max: 0, scanner_steps: 0, scanner_stalls: 0 }) };
+    static EXPR_DEPTH: Cell<u64> = const { Cell::new(0) };
+    static STALL_RUN: Cell<u64> = const { Cell::new(0) };
+}
+
+fn update(f: impl FnOnce(&mut Counters)) {
+    COUNTERS.with(|c| {
+        let mut v = c.get();
+        f(&mut v);
+        c.set(v);
+    });
+}
+
+pub fn reset() {
+    COUNTERS.with(|c| c.set(Counters::default()));
+    EXPR_DEPTH.with(|d| d.set(0));
+    STALL_RUN.with(|d| d.set(0));
+}
+
+pub fn counters() -> Counters {
+    COUNTERS.with(|c| c.get())
+}
+
+pub fn elem_eval(depth: u32) {
+    ELEM_EVALS_TOTAL.fetch_add(1, Ordering::Relaxed);
+    update(|c| {
+        c.elem_evals += 1;
+        c.depth_max = c.depth_max.max(depth as u64);
+    });
+}
+
+pub fn retry_pass() {
+    update(|c| c.retry_passes += 1);
+}
+
+pub fn loop_iter() {
+    update(|c| c.loop_iters += 1);
+}
+
+pub fn rng_draw() {
+    update(|c| c.rng_draws += 1);
+}
+
+pub fn expr_eval() {
+    EXPR_EVALS_TOTAL.fetch_add(1, Ordering::Relaxed);
+    update(|c| c.expr_evals += 1);
+}
+
+/// RAII gauge of expression-parser recursion depth.
+pub struct ExprDepthGuard;
+
+impl ExprDepthGuard {
+    pub fn enter() -> Self {
+        let d = EXPR_DEPTH.with(|d| {
+            d.set(d.get() + 1);
+            d.get()
+        });
+        update(|c| c.expr_depth_max = c.expr_depth_max.max(d));
+        ExprDepthGuard
+    }
+}
+
+impl Drop for ExprDepthGuard {
+    fn drop(&mut self) {
+        EXPR_DEPTH.with(|d| d.set(d.get().saturating_sub(1)));
+    }
+}
+
+/// Number of consecutive scanner steps without progress after which the
+/// monitor declares a non-advancing loop.
+pub const STALL_LIMIT: u64 = 64;
+
+/// Called after each step of a path-like scanner loop with the scanner index
+/// before and after the step. A step which consumes nothing, repeated
+/// `STALL_LIMIT` times in a row, can never terminate: report it by panicking
+/// with a recognisable message (the loop would otherwise spin forever).
+pub fn scanner_progress(site: &'static str, before: usize, after: usize) {
+    update(|c| c.scanner_steps += 1);
+    if after > before {
+        STALL_RUN.with(|s| s.set(0));
+        return;
+    }
+    update(|c| c.scanner_stalls += 1);
+    let run = STALL_RUN.with(|s| {
+        s.set(s.get() + 1);
+        s.get()
+    });
+    if run >= STALL_LIMIT {
+        STALL_RUN.with(|s| s.set(0));
+        panic!("VERIF-NOPROGRESS {site}");
+    }
+}
+
+/// State of the transformer context after a transform has returned.
+#[derive(Clone, Copy, Debug, Default)]
+pub struct Probe {
+    pub scope_stack: usize,
+    pub element_stack: usize,
+    pub current_depth: u32,
+    pub in_specs: bool,
+    pub real_svg: bool,
+}
+
+/// Run an ordinary transform (exactly what `transform_stream` does) and then
+/// read the context.
+pub fn transform_probe(input: &[u8], config: &TransformConfig) -> (Result<Vec<u8>>, Probe) {
+    let mut t = Transformer::from_config(config);
+    let mut reader = Cursor::new(input);
+    let mut output: Vec<u8> = vec![];
+    let res = t.transform(&mut reader, &mut output);
+    let probe = t.context.verif_probe();
+    (res.map(|_| output), probe)
+}
